@@ -266,6 +266,9 @@ impl AuxBoxList {
             } => {
                 self.current_box_ty = Some(ty);
                 if ty != ContainerBoxType::JPEG_RECONSTRUCTION {
+                    // A box that failed (e.g. a corrupt Brotli stream) was never finished and left
+                    // its reader behind; the caller may keep feeding, and a new box starts afresh.
+                    self.current_box = AuxBoxReader::new();
                     if brotli_compressed {
                         self.current_box.ensure_brotli()?;
                     } else {
